@@ -28,4 +28,5 @@ fields("OptimizationAbstract", _config="opt[BaseOptimizationConfig]", _task="opt
        _best_agent="opt[Agent]", _worst_agent="opt[Agent]", _current_cycle="int", _errors="list[float]",
        _error_diffs="list[float]", _mode="ModeSolver", _workers="int", _debug="bool")
 fields("Population", agents="list[Agent]")
-fields("OptimizationResult", evolution="list[Population]", rates="list[float]", best_solution="opt[Agent]")
+fields("OptimizationResult", evolution="list[Population]", rates="list[float]", best_solution="opt[Agent]",
+       task_type="TaskType")
